@@ -40,10 +40,17 @@ Perturbed(P, obj, id, lab, base) ==
     THEN IF P.op = "add" THEN VAdd(base, P.val) ELSE P.val
     ELSE base
 
-FlowVal(S, P, f, lab)  == Perturbed(P, "flow", f, lab, V(S.fcoef[f] * GSum(S, lab), 0, 0))
-StockIn(S, P, s, lab)  == Perturbed(P, "sin", s, lab, V(S.sin[s] * GSum(S, lab), 0, 0))
-StockOut(S, P, s, lab) == Perturbed(P, "sout", s, lab, V(S.sout[s] * GSum(S, lab), 0, 0))
-StockLevel(S, P, s, lab) == Perturbed(P, "level", s, lab, V(S.slevel[s] * GSum(S, lab), 0, 0))
+\* Base values: either generated (coefficient times the marginal of the generic array - the bounded models), or given
+\* EXPLICITLY per entry (field `fval` etc. - systems recorded from the real code, spec/trace/Trace_MassBalance.tla).
+Explicit(S) == "fval" \in DOMAIN S
+FlowBase(S, f, lab)   == IF Explicit(S) THEN S.fval[f][lab]   ELSE V(S.fcoef[f] * GSum(S, lab), 0, 0)
+StockInBase(S, s, lab)  == IF Explicit(S) THEN S.sinval[s][lab]  ELSE V(S.sin[s] * GSum(S, lab), 0, 0)
+StockOutBase(S, s, lab) == IF Explicit(S) THEN S.soutval[s][lab] ELSE V(S.sout[s] * GSum(S, lab), 0, 0)
+StockLevelBase(S, s, lab) == IF Explicit(S) THEN S.slevelval[s][lab] ELSE V(S.slevel[s] * GSum(S, lab), 0, 0)
+FlowVal(S, P, f, lab)  == Perturbed(P, "flow", f, lab, FlowBase(S, f, lab))
+StockIn(S, P, s, lab)  == Perturbed(P, "sin", s, lab, StockInBase(S, s, lab))
+StockOut(S, P, s, lab) == Perturbed(P, "sout", s, lab, StockOutBase(S, s, lab))
+StockLevel(S, P, s, lab) == Perturbed(P, "level", s, lab, StockLevelBase(S, s, lab))
 
 \* contributions to the balance of process p: <<sign, kind, id>>
 \*   +flow at its target, -flow at its source, -stock change at the stock's process,
@@ -78,6 +85,15 @@ MassBalanceVerdict(S, P) == IF Failing(S, P) = {} THEN "ok" ELSE "fail"
 FlowHasNaN(S, P, f) == \E lab \in Labelings(S.fdims[f]) : FlowVal(S, P, f, lab).nan = 1
 FlowNegative(S, P, f) == \E lab \in Labelings(S.fdims[f]) : BelowMinusTol(FlowVal(S, P, f, lab))
 Flagged(S, P, exc) == {f \in S.flows : S.fname[f] \notin exc /\ (FlowHasNaN(S, P, f) \/ FlowNegative(S, P, f))}
+
+\* with a tolerance far below the unit of the e-component (the DEFAULT tolerance on values that are exact multiples of the
+\* unit): every non-zero residual counts
+NonZero(v) == v.nan = 1 \/ v.i # 0 \/ v.e # 0
+FailingStrict(S, P) == {p \in DOMAIN S.procs : \E lab \in LabelingsOver(Common(S, p)) : NonZero(Balance(S, P, p, lab))}
+Negative(v) == v.nan = 0 /\ (v.i < 0 \/ (v.i = 0 /\ v.e < 0))        \* (|e| x unit < 1 is assumed)
+FlaggedStrict(S, P, exc) == {f \in S.flows : S.fname[f] \notin exc /\
+                               (FlowHasNaN(S, P, f) \/ \E lab \in Labelings(S.fdims[f]) : Negative(FlowVal(S, P, f, lab)))}
+
 
 AnyNaN(S, P) == \/ \E f \in S.flows : FlowHasNaN(S, P, f)
                 \/ \E s \in S.stocks : \E lab \in Labelings(S.sdims[s]) :
